@@ -75,6 +75,16 @@ def max_diff(a, b):
     return float(np.abs(a - b).max()), float(max(np.abs(b).max(), 1e-300))
 
 
+def fd_digest(fd):
+    """Digests of the arrays a FiniteDifference object exposes."""
+    out = {}
+    for a in ("xarray", "yarray", "zarray", "x", "y", "z", "r", "theta", "phi", "cartesian_coords", "spherical_coords"):
+        v = getattr(fd, a, None)
+        if v is not None:
+            out[a] = digest(v)
+    return out
+
+
 class Timeout(Exception):
     pass
 
@@ -88,6 +98,7 @@ class Engine:
         self.presentation = presentation
         self.opts = dict(opts or {})
         self.seed = seed
+        self._fd_args = dict(N=N, order=order)
         self.fd = fields.make_fd(N=N, order=order)
         self.inputs = fields.generic_inputs(self.fd, seed, presentation)
         self.helpers = X.helper_calls(self.fd, self.fd.x.shape)
@@ -98,7 +109,8 @@ class Engine:
         import aurel.core as core
         kw = dict(verbose=False, clear_cache_every_nbr_calc=clear_every, memory_threshold_inGB=mem_gb, lmax=2)
         kw.update(self.opts)
-        rel = core.AurelCore(self.fd, **kw)
+        # every instance gets its own grid object (a request that changed the shared one would contaminate the fresh oracle)
+        rel = core.AurelCore(fields.make_fd(**self._fd_args), **kw)
         if loader == "load_data":
             # the documented way of loading one iteration of simulation data: copies into data and freezes
             sim = {k: [np.zeros_like(v), v.copy()] for k, v in self.inputs.items()}
@@ -194,6 +206,7 @@ class Engine:
             for k in input_keys:
                 for a in arrays_of(dict.__getitem__(rel.data, k)):
                     a.flags.writeable = False
+        fd_dg = fd_digest(rel.fd)
         frozen0 = set(input_keys) if freeze else set()
         frozen_digest = {k: in_digest[k] for k in frozen0}
         old = signal.signal(signal.SIGALRM, _alarm)
@@ -226,6 +239,7 @@ class Engine:
                     frozen0 = set(frozen_digest)
                     continue
                 signal.alarm(WALL_GUARD_S)
+                keys_before = set(dict.keys(rel.data))
                 outcome = None
                 try:
                     v = self.do(rel, rec, req)
@@ -268,7 +282,8 @@ class Engine:
                 # instance returns for that key - otherwise a later request that hits it returns a history-dependent value
                 # (e.g. an entry computed while an option was temporarily changed)
                 if not onshell and coherence:
-                    for k in dict.fromkeys(e["key"] for e in evs if e["ev"] == "exit" and e.get("stored") and e["depth"] >= 1):
+                    new_keys = [k for k in dict.keys(rel.data) if k not in keys_before and k != req]
+                    for k in dict.fromkeys([e["key"] for e in evs if e["ev"] == "exit" and e.get("stored") and e["depth"] >= 1] + new_keys):
                         if k in self.inputs or not dict.__contains__(rel.data, k):
                             continue
                         wk, mixed_k = {}, False
@@ -331,6 +346,14 @@ class Engine:
                                          f"{None if r is None else r[0]:} on scale {None if r is None else r[1]}"
                                          + (f"; inputs recomputed from Minkowski defaults: {used_default}" if used_default else ""),
                                          dict(setting, pos=pos, branch=branch, maxdiff=None if r is None else r[0])))
+                # ---- C02: the grid object handed to AurelCore is the user's too
+                fdd = fd_digest(rel.fd)
+                if fdd != fd_dg:
+                    changed = sorted(a for a in fdd if fdd[a] != fd_dg.get(a))
+                    findings.append(("C02", {"clause": "NoInPlaceWrite", "written": "FiniteDifference." + changed[0]},
+                                     f"request {req!r} changed in place the arrays {changed} of the FiniteDifference object the instance was built on "
+                                     f"(history {history[:pos]})", dict(setting, pos=pos, written="fd." + changed[0])))
+                    fd_dg = fdd
                 # ---- C02: nothing handed out so far changed
                 for name, obj, dg in held:
                     if digest(obj) != dg:
